@@ -133,6 +133,7 @@ func verifyFunc(l *Loaded, spec *FuncSpec, prop string) (res *FuncResult) {
 	res.e = e
 	x := &Exec{e: e, specs: l.specs, root: &sp, rootFn: fn, maxPaths: 20000, inlined: map[string]bool{}, byContract: map[string]bool{}, unmodelled: map[string]bool{}, oblCount: map[string]int{}, usedModels: map[string]string{}}
 	x.nopanic = sp.NoPanic["*"] || sp.NoPanic[prop]
+	x.deadline = time.Now().Add(5 * time.Minute)
 	for _, b := range fn.Blocks {
 		res.Instrs += len(b.Instrs)
 	}
